@@ -80,6 +80,50 @@ def errorLocation (toks : List Tok) (bad : Option Tok) : List (List Char) :=
   let shown := (s.lines.take (s.errLine + 1)).drop first
   hdr :: (shown.map (fun l => '>' :: l) ++ [caretLine s.errIdx errLen])
 
+/-- `s.split('\n')` -/
+def splitLines : List Char → List (List Char)
+  | [] => [[]]
+  | c :: r =>
+    match splitLines r with
+    | [] => [[]]   -- unreachable
+    | l :: ls => if c = '\n' then [] :: l :: ls else (c :: l) :: ls
+
+/-! #### variant of the first loop after `fixes/C19_6.diff` (a value is placed part by part, one
+`'\n'`-separated part per line); `split = false` is the code without that change.  The extractor
+sets the flag from the behaviour of the live `error_location` (`Gen.ErrLex.splitValues`). -/
+
+/-- `place` with the index and the text given explicitly -/
+def placeAt (line : List Char) (index : Nat) (value : List Char) : List Char :=
+  (if line.length > index then line.take index
+   else line ++ List.replicate (index - line.length) ' ') ++ value
+
+/-- `for n, part in enumerate(token.value.split('\n')): …; index += len(part) + 1` -/
+def addParts : Dict → Nat → Nat → List (List Char) → Dict
+  | d, _, _, [] => d
+  | d, ln, ix, part :: r =>
+    addParts (d.set ln (placeAt (d.get ln) ix part)) (ln + 1) (ix + part.length + 1) r
+
+def addTokV (split : Bool) (d : Dict) (t : Tok) : Dict :=
+  if split then addParts d t.lineno t.index (splitLines t.value) else addTok d t
+
+def buildV (split : Bool) (toks : List Tok) : Dict := toks.foldl (addTokV split) []
+
+/-- `error_len`: `len(value)`, resp. `len(value.split('\n')[0])` -/
+def errLenV (split : Bool) (b : Tok) : Nat :=
+  if split then ((splitLines b.value).headD []).length else b.value.length
+
+/-- `error_location` in either variant -/
+def errorLocationV (split : Bool) (toks : List Tok) (bad : Option Tok) : List (List Char) :=
+  let d := buildV split toks
+  let hdr := match bad with | none => hdrEof | some _ => hdrUnknown
+  let errLen := match bad with | none => 1 | some b => errLenV split b
+  let errLineNum := match bad with | none => d.lastKey | some b => b.lineno
+  let errIdx : Int := match bad with | none => ((d.get d.lastKey).length : Nat) | some b => (b.index : Nat)
+  let s := shiftLoop errLineNum d ⟨[], 0, 0, errIdx, 0⟩
+  let first := if s.errLine > 1 then s.errLine - 2 else 0
+  let shown := (s.lines.take (s.errLine + 1)).drop first
+  hdr :: (shown.map (fun l => '>' :: l) ++ [caretLine s.errIdx errLen])
+
 /-! ### make_suggestion -/
 
 /-- terminal ids of the token names the code compares with literally -/
@@ -196,12 +240,12 @@ def joinWith (sep : List Char) : List (List Char) → List Char
   | a :: b :: r => a ++ sep ++ joinWith sep (b :: r)
 
 /-- `ErrorHandling.process` -/
-def process (valid : List Nat → Bool) (nm : Names) (attr : Nat → Option (List Char))
+def process (split : Bool) (valid : List Nat → Bool) (nm : Names) (attr : Nat → Option (List Char))
     (toks : List Tok) (badIdx : Option Nat) (expected : List Nat) : List Char :=
   if toks.length = 0 then "Empty input".toList
   else
     let bad := match badIdx with | none => none | some k => toks[k]?
-    let msgs := errorLocation toks bad
+    let msgs := errorLocationV split toks bad
     let sugg := makeSuggestion valid nm attr (toks.map (·.type)) badIdx expected
     let msgs := if sugg.isEmpty then msgs
       else
@@ -210,14 +254,6 @@ def process (valid : List Nat → Bool) (nm : Names) (attr : Nat → Option (Lis
     joinWith ['\n'] msgs
 
 /-! ### MindsDBLexer.error -/
-
-/-- `text.split('\n')` -/
-def splitLines : List Char → List (List Char)
-  | [] => [[]]
-  | c :: r =>
-    match splitLines r with
-    | [] => [[]]   -- unreachable
-    | l :: ls => if c = '\n' then [] :: l :: ls else (c :: l) :: ls
 
 structure LexLoc where
   shift : Nat
